@@ -28,7 +28,9 @@ RULE = ("seeded P-code generator (Mark, UOD commands of 1-5 ticks, Wait, thresho
         "changes so that effects do not depend on absolute timing) x optional injection in flight x edit point = every "
         "tick of the run (quick: every 2nd) x on-line edit script of 1-3 edits from {append at end, append at end of an "
         "open scope, change / insert before / delete a not-yet-started line, change a started line, change a completed "
-        "line} with 0-4 ticks between edits. distinct = (method shape, edit kinds, progress bucket at the first edit); "
+        "line, re-indent a started / a completed line by +4 or -4 columns (text otherwise equal: only the scope it "
+        "belongs to changes), change only trailing blanks or the spacing after ':' of a started / completed line} "
+        "with 0-4 ticks between edits. distinct = (method shape, edit kinds, progress bucket at the first edit); "
         "non-trivial = at least one line had started and at least one had not when the first edit arrived")
 ASSUMPTIONS = [
     "which lines are started is read from Engine.method_manager.get_method_state() at edit time and cross-checked with "
@@ -42,16 +44,26 @@ ASSUMPTIONS = [
     "'ran at least once' inside them, UOD initialisations per command name; generated methods avoid constructs whose "
     "effects depend on when a line runs, and the shapes for which C02 recorded engine defects (Watch/Alarm nested in "
     "Alarm or macro bodies, macros called from interrupts, multi-tick UOD commands in Alarm bodies)",
+    "indentation is structure in P-code: an edit that changes only the leading whitespace of a started/completed line "
+    "(any opener, leaf or End block line) changes that line and must be rejected like a change of its text; a change "
+    "of trailing blanks or of the spacing after the first ':' does not change the meaning for sure, so whether the "
+    "engine treats it as a change is counted, not judged (rejected: must be MethodEditError and the continuation must "
+    "equal the base run; accepted: judged like every accepted edit)",
     "for a rejected edit the continuation is compared tick by tick and exactly (all tag values except Run Id, method "
     "state, Marks, UOD callbacks, hardware registers) with the run that never saw the attempt",
 ]
 REQUIRED = {"edits_attempted": 1500, "started_line_edit_attempts": 400, "rejected_snapshot_checks": 400,
             "continuation_ticks_compared": 3000, "accepted_merge_boundary_checks": 500, "path_choice_checks": 500,
-            "set_path_differential_checks": 20}
+            "set_path_differential_checks": 20, "reindent_started_line_attempts": 250, "reindent_indent_started": 80,
+            "reindent_indent_completed": 80, "reindent_dedent_started": 15, "reindent_dedent_completed": 15,
+            "ws_only_started_line_attempts": 250, "ws_only_trailing": 60, "ws_only_inner": 60}
 
 ALLOW = ("mark", "uod", "wait", "block", "watch", "alarm", "macro", "thr", "blank", "pausehold", "counter", "info")
 KINDS = ["append_end", "append_end", "append_scope", "change_unstarted", "insert_before_unstarted", "delete_unstarted",
-         "change_started", "change_started", "change_completed"]
+         "change_started", "change_started", "change_completed", "reindent_started", "reindent_completed",
+         "ws_only_started", "ws_only_completed"]
+# all kinds from change_started on target a started/completed line; the reindent_* kinds change only the leading
+# whitespace (= the scope the line belongs to), the ws_only_* kinds only trailing blanks or the spacing after the first ':'
 OPENERS = ("BlockNode", "WatchNode", "AlarmNode", "MacroNode")
 
 
@@ -248,7 +260,8 @@ def make_edit(rnd: random.Random, run: Run, counter: list) -> dict | None:
             kind = "append_end"
             continue
         # change_started / change_completed
-        pool_ids = set(ms.executed_line_ids) if kind == "change_completed" else rep_started
+        want_completed = kind.endswith("_completed")
+        pool_ids = set(ms.executed_line_ids) if want_completed else rep_started
         cands = []
         for i in pool_ids:
             nd = nodes.get(i)
@@ -256,15 +269,35 @@ def make_edit(rnd: random.Random, run: Run, counter: list) -> dict | None:
                 continue
             if i not in act_started or i in ms.failed_line_ids or nd.failed:
                 continue
-            if kind == "change_completed" and not nd.completed:
+            if want_completed and not nd.completed:
                 continue
             cands.append(i)
         if cands:
-            i = rnd.choice(sorted(cands, key=lambda x: idx[x]))
+            cands = sorted(cands, key=lambda x: idx[x])
+            deep = [c for c in cands if _indent(lines[idx[c]][1]) >= 4]
+            dedent = kind.startswith("reindent_") and bool(deep) and rnd.random() < 0.6
+            i = rnd.choice(deep if dedent else cands)
             k = idx[i]
             old = lines[k][1]
             ind = _indent(old)
             cls = type(nodes[i]).__name__
+            if kind.startswith("reindent_"):
+                # same text, other indentation: the line moves into / out of a scope (or becomes an indentation error)
+                delta = -4 if dedent else 4
+                new = lines[:k] + [(i, " " * (ind + delta) + old[ind:])] + lines[k + 1:]
+                return {"kind": kind, "new_lines": new, "expect_reject": True, "target": i, "old": old,
+                        "how": "indent+4" if delta > 0 else "dedent-4", "cls": cls}
+            if kind.startswith("ws_only_"):
+                # textual difference without a difference in meaning for sure: not judged either way (expect_reject None)
+                how = rnd.choice(["trailing", "trailing2", "inner"])
+                body = old[ind:]
+                if how == "inner" and ": " in body:
+                    newc = body.replace(": ", ":  ", 1)
+                else:
+                    how = "trailing" if how == "inner" else how
+                    newc = body + (" " if how == "trailing" else "   ")
+                new = lines[:k] + [(i, " " * ind + newc)] + lines[k + 1:]
+                return {"kind": kind, "new_lines": new, "expect_reject": None, "target": i, "old": old, "how": how}
             if cls == "BlockNode":
                 newc = f"Block: bx{n}"
             elif cls in ("WatchNode", "AlarmNode"):
@@ -390,6 +423,15 @@ def edited_run(case, t, sseed, base_digests, T, res: Result, viol, sub):
             desc = f"edit #{ei + 1} ({ed['kind']} on {ed['target']}) after tick {rig.k}"
             if ed["expect_reject"]:
                 res.count("started_line_edit_attempts")
+            if ed["kind"].startswith("reindent_"):
+                res.count("reindent_started_line_attempts")
+                res.count("reindent_" + ed["how"].split("-")[0].split("+")[0] + "_" + ed["kind"].split("_")[1])
+                if ed["cls"] in OPENERS:
+                    res.count("reindent_of_scope_opener")
+            ws_only = ed["expect_reject"] is None
+            if ws_only:
+                res.count("ws_only_started_line_attempts")
+                res.count("ws_only_" + ed["how"])
             # ------------------------------------------------------------ rejected
             if exc is not None:
                 snap1 = L.snapshot(rig)
@@ -405,6 +447,17 @@ def edited_run(case, t, sseed, base_digests, T, res: Result, viol, sub):
                         V("C01.rejected_edit_left_trace", f"{desc}: rejected with MethodEditError but the observable snapshot "
                                                           f"changed in {diff}")
                         raise _Stop()
+                elif ws_only:
+                    # the code under test treats the textual difference as a change of the started line: allowed, but
+                    # then it is a rejection like any other (not the error state); the continuation is compared below
+                    res.count("ws_only_edit_rejected")
+                    if not isinstance(exc, MethodEditError):
+                        V(None, f"{desc}: whitespace-only change ({ed['how']}) of started line {ed['target']} "
+                                f"({ed.get('old')!r}) raised {type(exc).__name__} instead of MethodEditError: {exc}"[:500])
+                        raise _Stop()
+                    if diff:
+                        res.count("ws_only_edit_rejected_but_snapshot_changed")
+                        rejected_only = False
                 else:
                     res.count("valid_edit_rejected")
                     res.count("valid_edit_rejected_" + _reason(str(exc)))
@@ -418,10 +471,17 @@ def edited_run(case, t, sseed, base_digests, T, res: Result, viol, sub):
             # ------------------------------------------------------------ accepted
             else:
                 if ed["expect_reject"]:
+                    if ed["kind"].startswith("reindent_"):
+                        V("C01.reindented_started_line_edit_accepted",
+                          f"{desc}: line {ed['target']} was reported as started/executed ({ed.get('old')!r}) but the edit that "
+                          f"changes only its indentation ({ed['how']}, i.e. the scope it belongs to) was accepted ({result})")
+                        raise _Stop()
                     V("C01.started_line_edit_accepted",
                       f"{desc}: line {ed['target']} was reported as started/executed ({ed.get('old')!r}) but the edit that "
                       f"changes it was accepted ({result})")
                     raise _Stop()
+                if ws_only:
+                    res.count("ws_only_edit_accepted")      # judged like any accepted edit: nothing may re-run or get lost
                 rejected_only = False
                 res.count("edits_accepted")
                 res.count("path_choice_checks")
